@@ -160,7 +160,7 @@ def get_facts(features=(), repo=None):
             files = sorted((os.path.getmtime(os.path.join(fdir, f)), f) for f in os.listdir(fdir) if f.endswith(".json"))
             # (the thorough tier evaluates every benign variant once per property: the facts of a variant are extracted once
             # and shared by the eighteen self-validation runs; ~5 MB per tree)
-            for _, f in files[:-int(os.environ.get("COBWEB_FACTS_CACHE", "400"))]:
+            for _, f in files[:-int(os.environ.get("COBWEB_FACTS_CACHE", "1000"))]:
                 try:
                     os.remove(os.path.join(fdir, f))
                 except OSError:
